@@ -229,7 +229,8 @@ PROPS["C08"] = {
     "rule": "names: every string of length <= 4 (quick) / <= 5 (thorough) over {/ . a \\ space ~ % e-acute} and random "
             "names of length 6..40 through TargetName::new (raw -> resolved or refusal). Saves: one raw name per distinct "
             "resolved form (700 sampled in quick), random long names and absolute names pointing at a unique location "
-            "outside the sandbox; per save a random choice of file-name prefix mode, pre-existing file at the destination, "
+            "outside the sandbox; per save a random choice of file-name prefix mode, pre-existing file at the destination (an "
+            "unrelated one, or one of exactly the signed length with other content), "
             "and transfer fault (clean, bit flip, oversize, truncated, transport error at chunk k), a third of the scripts with an "
             "empty chunk at a random position, for both "
             "consistent-snapshot settings; the transport stream snapshots the whole sandbox tree (output directory three "
@@ -359,7 +360,8 @@ PROPS["C20"] = {
             "with 1-2 keys [--cross-sign <earlier copy>] [-i]) over six real key files (RSA, Ed25519, ECDSA), 4 of 5 sequences "
             "start from a usable root (a third of those with separate root and online keys); 150 sequences quick / 1500 "
             "thorough, plus corpus sequences: the repaired defect, a key listed for other roles only asked to sign the root, "
-            "the old root key kept as online key and cross-signed, a key removed from the root role only. The real "
+            "the old root key kept as online key and cross-signed, a key removed from the root role only, a key left in the table "
+            "without a role and then removed from a signed file. The real "
             "binary (built from /repo's tree) is run once per command; after every command the file is parsed with tough's "
             "schema and abstracted (key table, role key lists, thresholds, version, for every signature: by which key and "
             "whether it verifies over the CURRENT content, self-verification, stray files in the directory). Non-trivial: a "
@@ -527,7 +529,7 @@ PROPS["C17"] = {
     "env": {"TUFTOOL": "/verif/.work/tuftool-target/debug/tuftool"},
     "rule": "random repositories as for C19 (delegation trees to depth 3 with up to 6 roles, target and role names with spaces, "
             "non-ASCII and sub-directories, both consistent-snapshot settings, pinned lengths / hashes or not), every target "
-            "entry with custom data, every other delegation marked terminating, every timestamp / snapshot / targets document with two unknown top-level members (a number "
+            "entry with custom data, in a quarter of the repositories a target `pkg/../tool.txt` to which the update adds `tool.txt`, every other delegation marked terminating, every timestamp / snapshot / targets document with two unknown top-level members (a number "
             "and a nested object with non-ASCII text); loaded with the real client, passed through RepositoryEditor::from_repo, "
             "new versions and expirations set for targets, snapshot and timestamp, 0..2 new targets added, signed with the online "
             "keys (ECDSA key files), written, and loaded again. Facts compared before / after: every target of every role "
